@@ -2,7 +2,7 @@
    Model: Store/Store.v, the reference store (token-keyed session fields, vouchers by GUID, rendezvous blobs with expiry)
    against which the real sqlite.DB is run operation by operation, including closing and reopening the database file
    between any two operations.  [proj n f] is what token n can observe of field f. *)
-From FDO Require Import Store.Store Store.StoreFacts.
+From FDO Require Import Store.Store Store.StoreFacts Store.Token Store.TokenFacts.
 Local Open Scope Z_scope.
 
 (* session isolation, for every history: the store seen through one token and field evolves as a one-cell machine that
@@ -96,3 +96,32 @@ Example C18_example :
                   OGet (TId 1) 5; OGet (TId 0) 5; OGet TBad 5; OSetBlob [x0a] [x0b] 10; OGetBlob [x0a] 10000; OGetBlob [x0a] 10001]%byte) =
   [RTok 0; RTok 1; ROk; ROk; ROk; RVal [x01]; ROk; RNotFound; RVal [x01]; RInvalid; ROk; RVal [x0b]; RNotFound]%byte.
 Proof. vm_compute. reflexivity. Qed.
+
+(* ---- what "a token the store did not issue" means in bytes (sqlite.go NewToken / sessionID; kind store.token runs the real
+   check, through a hook, on token texts of every decoded length and every one-character change of a genuine token) ---- *)
+
+(* the check is total: no token text, of any length, slices out of range *)
+Theorem C18_token_total : forall O_b64dec O_mac secret token, exists r, session_id O_b64dec O_mac secret token = Ok r.
+Proof. exact session_id_total. Qed.
+Print Assumptions C18_token_total.
+
+(* an accepted token decodes to id || HMAC(secret, id): whoever presents it has the MAC of its first 16 bytes under the
+   store's secret *)
+Theorem C18_token_sound : forall O_b64dec O_mac secret token id,
+  session_id O_b64dec O_mac secret token = Ok (Some id) ->
+  exists raw, O_b64dec token = Some raw /\ raw = id ++ O_mac secret id /\ length id = session_id_size.
+Proof. exact session_id_sound. Qed.
+Print Assumptions C18_token_sound.
+
+(* every issued token names its own session, and two sessions never share a token *)
+Theorem C18_token_issued : forall O_b64dec O_b64enc O_mac secret id,
+  (forall x, O_b64dec (O_b64enc x) = Some x) -> length id = session_id_size ->
+  session_id O_b64dec O_mac secret (new_token O_b64enc O_mac secret id) = Ok (Some id).
+Proof. exact new_token_accepted. Qed.
+Print Assumptions C18_token_issued.
+
+Theorem C18_tokens_distinct : forall O_b64dec O_b64enc O_mac secret id1 id2,
+  (forall x, O_b64dec (O_b64enc x) = Some x) -> length id1 = session_id_size -> length id2 = session_id_size ->
+  new_token O_b64enc O_mac secret id1 = new_token O_b64enc O_mac secret id2 -> id1 = id2.
+Proof. exact tokens_distinct. Qed.
+Print Assumptions C18_tokens_distinct.
